@@ -109,10 +109,13 @@ CLAIMED = {
     "C02": dict(
         text="Lean 4: C02_binding_simulation (the atom_to_bond stack machine of the binding pass simulates the SMILES reading in which a descriptor is an atom, "
              "for all lexeme sequences, any nesting depth; pushPop_eq_steps ties the model's _push_pop_atom_branch to that machine), C02_weight_law (no weight = 1, "
-             "list total = sum). The character-level model of token.py / bond.py / stochastic.py / molecule.py / system.py is compared with the code field by "
+             "list total = sum), C02_token_lossless (for every accepted token text, any length and nesting: the parsed element list spells the stripped text again "
+             "character for character once each descriptor element is replaced by the text it was cut from, that text is what the descriptor parser was run on, "
+             "descriptors numbered in written order, atom list = atom elements in written order: the scanner and the descriptor cutting lose, duplicate and reorder "
+             "nothing), C02_print_is_raw_with_canonical_descriptors. The character-level model of token.py / bond.py / stochastic.py / molecule.py / system.py is compared with the code field by "
              "field on strings printed from ASTs by an independent printer; the oracle compares every parsed field with what the AST denotes and with RDKit's own "
              "reading of the token in which descriptors are dummy atoms.",
-        note="The scanner and the find/rfind splitting are covered by the correspondence, not by theorems. Tokens with an explicit [H] inside a multi-atom token "
+        note="The splitting of stochastic objects / molecules / systems and the number syntax are covered by the correspondence, not by theorems. Tokens with an explicit [H] inside a multi-atom token "
              "are outside the domain (RDKit renumbers). Three defects of the pinned tree were repaired (fix: commits).",
         technique="Lean 4 simulation proof (stack machine vs SMILES semantics) + character-level differential check + RDKit dummy-atom oracle",
         ref="7/C02"),
